@@ -144,12 +144,16 @@ def selfcheck(seed, n, out=None):
                 job = write_header_job(scratch, f"s{i}.o{k}", gen_decls.header_name(prog), gen_decls.render(prog, o),
                                        prog.flags, {"callbacks": True} if prog.callbacks else None)
                 reqs.append(gen_req(job, fix_cfg(prng.next())))
+        # identical process histories (one fresh worker each time): everything must agree;
+        # many workers (other histories): the result of each generation must still agree
         a = run_requests(reqs, workers=1, timeout=300)
-        b = run_requests(reqs, workers=min(16, len(reqs)), timeout=300)
+        b = run_requests(reqs, workers=1, timeout=300)
+        c = run_requests(reqs, workers=min(16, len(reqs)), timeout=300)
         bad = [i for i, (x, y) in enumerate(zip(a, b)) if fingerprint_of(x) != fingerprint_of(y)]
+        bad += [i for i, (x, y) in enumerate(zip(a, c)) if (x.get("kind"), x.get("fp")) != (y.get("kind"), y.get("fp"))]
         if bad and out is not None:
             out.harness_errors.append(f"determinism self-check: {len(bad)} of {len(reqs)} requests differ between "
-                                      f"1 and 16 workers (first: request {bad[0]})")
+                                      f"repeated runs (first: request {bad[0]})")
         return len(reqs), len(bad)
     finally:
         remove_scratch(scratch)
@@ -215,7 +219,7 @@ def run(tier, seed, only=None):
     st = Stats()
     minimised = [0]
     n_self, bad_self = selfcheck(seed, 6 if tier == "quick" else 60, out)
-    log(f"[C07] determinism self-check: {n_self} requests on 1 vs 16 workers, {bad_self} differ")
+    log(f"[C07] determinism self-check: {n_self} requests run three times (1, 1, 16 workers), {bad_self} differ")
     quick = tier == "quick"
     samples = []
 
